@@ -169,6 +169,41 @@ theorem checkAfterRules_eq (e : Engines) (c : Conf) (H : Bytes) :
 
 theorem dedupNames_nil_of_nil : dedupNames [] [] = [] := rfl
 
+theorem dedupNames_length (l acc : List Bytes) : acc.length ≤ (dedupNames l acc).length := by
+  induction l generalizing acc with
+  | nil => simp [dedupNames]
+  | cons n rest ih =>
+    unfold dedupNames
+    split
+    · exact ih acc
+    · have := ih (n :: acc); simp at this; omega
+
+theorem dedupNames_isEmpty (l : List Bytes) : (dedupNames l []).isEmpty = l.isEmpty := by
+  cases l with
+  | nil => rfl
+  | cons n rest =>
+    have h : [n].length ≤ (dedupNames rest [n]).length := dedupNames_length rest [n]
+    simp only [dedupNames, List.any_nil, List.isEmpty_cons]
+    cases hd : dedupNames rest [n] with
+    | nil => rw [hd] at h; simp at h
+    | cons _ _ => rfl
+
+theorem rewriteResult_notFiltered (e : Engines) (c : Conf) (h : Bytes) (t : Nat) :
+    (rewriteResult e c h t).isFiltered = false := by
+  unfold rewriteResult; dsimp only; split <;> rfl
+
+theorem matchSysHosts_reason (e : Engines) (c : Conf) (h : Bytes) (t : Nat) (s : Setts) :
+    (matchSysHosts e c h t s).reason = .notFound ∨ (matchSysHosts e c h t s).reason = .autoHosts := by
+  unfold matchSysHosts
+  repeat' (first | split | dsimp only)
+  all_goals first | exact Or.inl rfl | exact Or.inr rfl
+
+theorem matchSysHosts_notFiltered (e : Engines) (c : Conf) (h : Bytes) (t : Nat) (s : Setts) :
+    (matchSysHosts e c h t s).isFiltered = false := by
+  unfold matchSysHosts
+  repeat' (first | split | dsimp only)
+  all_goals rfl
+
 theorem flatMap_names_nil (l : List HostsRec) (h : ∀ r ∈ l, r.names = []) : l.flatMap (·.names) = [] := by
   induction l with
   | nil => rfl
